@@ -48,7 +48,16 @@ func genOrderSchema(r *rng, depth int) *js.Schema {
 		names = append(names, k)
 	}
 	sort.Strings(names)
-	switch r.intn(7) {
+	switch r.intn(8) {
+	case 7: // many absent names ahead of (some of) the real ones: positions beyond the number of properties
+		o := []string{}
+		for i := 0; i < len(names)+1+r.intn(3); i++ {
+			o = append(o, fmt.Sprintf("ghost%d", i))
+		}
+		if len(names) > 0 {
+			o = append(o, shuffled(r, names)[:1+r.intn(len(names))]...)
+		}
+		s.PropertyOrder = o
 	case 0: // no order
 	case 1: // a permutation
 		s.PropertyOrder = shuffled(r, names)
